@@ -963,6 +963,15 @@ def explore(check, reqs, lines, bound, budget, monitor=True):
 
 MAX_BRANCH = 400
 
+def tidy():
+    """between scenarios: every fresh world leaves its model classes behind in spyne's module-level cdict tables
+    (they are never freed), and MethodContext.close() runs a full gc.collect() at most once a second - whose cost
+    grows with the heap.  Moving what has survived so far to the permanent generation keeps that collection cheap
+    without touching spyne."""
+    import gc
+    gc.collect()
+    gc.freeze()
+
 def lines_name(lines):
     return None if lines is None else ('ALL' if lines == 'ALL' else 'SHARED')
 
@@ -1131,7 +1140,7 @@ def unit_scenarios(check, tier):
         [['sort', [2, 2]], ['sort', [2]]],
         [['sort', [3, 4]], ['sort', [4, 3]], ['attrs', [3]]],
     ]
-    n = 4 if tier == 'quick' else 16
+    n = 4 if tier == 'quick' else 40
     for _ in range(n):
         k = rng.randint(2, 4)
         s = []
@@ -1204,7 +1213,7 @@ def http_scenarios(check, tier):
         [['jbox', 'ann', 2], ['jbox', 'bob', 1]],
         [['jsum', 'ann', [1, 2]], ['jsq', -3], ['jbadtype', 4]],
     ]
-    n = 4 if tier == 'quick' else 16
+    n = 4 if tier == 'quick' else 40
     for i in range(n):
         k = rng.randint(2, 4)
         if i % 4 == 2:      # JSON application only
@@ -1329,32 +1338,35 @@ def run(check):
         bound = 2 if len(reqs) <= 2 else 1
         if not quick:
             bound += 1
-        budget = (150 if len(reqs) <= 2 else 80) if quick else (300 if len(reqs) <= 2 else 200)
+        budget = (150 if len(reqs) <= 2 else 80) if quick else (800 if len(reqs) <= 2 else 500)
         for r in explore(check, reqs, None, bound, budget):
             account(r, 'access_level')
             handle(check, r, cases)
+        tidy()
 
     phase('access_level')
     # 2. line-granularity exploration (sys.settrace line+return events inside the shared-state code)
     for reqs in unit_scenarios(check, tier)[:N_FIXED_UNIT]:
-        budget = 40 if quick else 200
+        budget = 40 if quick else 600
         for r in explore(check, reqs, LINE_FUNCS_SHARED, 1 if quick else 2, budget):
             account(r, 'line_level')
             handle(check, r, cases)
+        tidy()
 
     phase('line_level')
     # 3. end-to-end WSGI requests (SOAP calls, faults, validation failures, ?wsdl) at line granularity
     for reqs in http_scenarios(check, tier):
-        budget = 28 if quick else 60
+        budget = 28 if quick else 150
         for r in explore(check, reqs, LINE_FUNCS_SHARED, 1 if quick else 2, budget):
             account(r, 'http')
             handle(check, r, cases)
         # randomized stress: switch points at EVERY line of every spyne/ function
-        for _ in range(6 if quick else 20):
+        for _ in range(6 if quick else 40):
             r = run_once(reqs, RandomChooser(check.rng, check.rng.choice([0.002, 0.01, 0.05])), 'ALL')
             r['lines'] = 'ALL'
             account(r, 'random_all_lines')
             handle(check, r, cases)
+        tidy()
 
     phase('http')
     lib.correspond(check, 'schedules', IMPORTS, 'case', '(corr_ok Repaired)', cases,
